@@ -76,7 +76,15 @@ func makeURLKey(u *url.URL) string {
 	// RFC 3986 §6.2.2.2: Normalize percent-encoding in path, and only then
 	// RFC 3986 §6.2.2.3: remove dot segments ("%2E" is a dot), by the §5.2.4
 	// algorithm (which keeps empty segments: "/..//a" is "//a", not "/a").
-	path := removeDotSegments(normalizePercentEncoding(u.EscapedPath()))
+	path := u.EscapedPath()
+	if path != "" && path[0] != '/' && u.Host != "" {
+		// RFC 3986 §3.3: with an authority, the path is empty or begins with
+		// "/". A URL value can lack the slash ([url.URL.JoinPath] on a base
+		// without a path); [url.URL.String] writes it, and without it host and
+		// path would run together ("http://a" + "b/" is not "http://ab/").
+		path = "/" + path
+	}
+	path = removeDotSegments(normalizePercentEncoding(path))
 	if path == "" && (scheme == "http" || scheme == "https") {
 		path = "/"
 	}
